@@ -1,6 +1,6 @@
 // Kani unit deps_collect (C15): collect_deps of cmds/jrsonnet-deps -- the transitive closure over statically discovered imports.
 // Contract: every import found in a file is resolved relative to THAT file and listed; a file imported as code (`import`) is itself
-// scanned, exactly once (first listing), `importstr` / `importbin` targets are listed but not scanned; a failing load / parse / resolve
+// scanned, exactly once (the first time it is imported AS CODE -- also when it was listed earlier through importstr), `importstr` / `importbin` targets are listed but not scanned; a failing load / parse / resolve
 // aborts with an error.  The recursion is cut at the recursive call (recorded), the AST traversal at Visitor::visit_expr (unit ir_visit).
 #![allow(unused, dead_code, static_mut_refs)]
 
@@ -54,7 +54,7 @@ impl BTreeSet<String> {
 }
 static mut RECURSED: [u8; 4] = [9; 4];
 static mut NREC: usize = 0;
-fn collect_deps_callee(_r: &FileImportResolver, s: &SourcePath, _d: &mut BTreeSet<String>) -> Result<(), String> { unsafe { RECURSED[NREC] = s.0; NREC += 1; } Ok(()) }
+fn collect_deps_callee(_r: &FileImportResolver, s: &SourcePath, _d: &mut BTreeSet<String>, _sc: &mut BTreeSet<String>) -> Result<(), String> { unsafe { RECURSED[NREC] = s.0; NREC += 1; } Ok(()) }
 
 // ---------------------------------------------------------------- extracted real code
 //@item cmds/jrsonnet-deps/src/main.rs :: struct FoundImports
@@ -68,28 +68,40 @@ mod harness {
     fn h_code_and_str_imports() {
         // file 0:  import "a" (-> file 1),  importstr "b" (-> file 2)
         unsafe { SCRIPT[0] = [("a", true, 1), ("b", false, 2)]; NIMP[0] = 2; }
-        let mut deps = BTreeSet::new();
-        let r = collect_deps(&FileImportResolver, &SourcePath(0), &mut deps);
+        let mut deps = BTreeSet::new(); let mut scanned = BTreeSet::new();
+        let r = collect_deps(&FileImportResolver, &SourcePath(0), &mut deps, &mut scanned);
         assert!(r.is_ok(), "obligation: a loadable, parsable file with resolvable imports is not an error");
         assert!(deps.len() == 2 && deps.has(b'1') && deps.has(b'2'), "obligation: every import target is listed, whatever its kind");
         unsafe { assert!(NREC == 1 && RECURSED[0] == 1, "obligation: exactly the files imported as code are scanned in turn"); }
     }
     #[kani::proof] #[kani::unwind(6)]
-    fn h_already_listed() {
-        // file 1 already listed (import cycle / diamond): it is not scanned again; the same target twice in one file is scanned once
-        unsafe { SCRIPT[0] = [("a", true, 1), ("c", true, 3)]; NIMP[0] = 2; SCRIPT[3] = [("a", true, 1), ("a2", true, 1)]; NIMP[3] = 2; }
-        let mut deps = BTreeSet::new();
-        deps.insert(String(b'1'));
-        let r = collect_deps(&FileImportResolver, &SourcePath(0), &mut deps);
+    fn h_already_scanned() {
+        // file 1 was already scanned as code (import cycle / diamond): not scanned again; the same code target twice in one file is scanned once
+        unsafe { SCRIPT[0] = [("a", true, 1), ("c", true, 3)]; NIMP[0] = 2; }
+        let mut deps = BTreeSet::new(); let mut scanned = BTreeSet::new();
+        deps.insert(String(b'1')); scanned.insert(String(b'1'));
+        let r = collect_deps(&FileImportResolver, &SourcePath(0), &mut deps, &mut scanned);
         assert!(r.is_ok() && deps.len() == 2 && deps.has(b'3'), "obligation: new targets are added to the listing");
-        unsafe { assert!(NREC == 1 && RECURSED[0] == 3, "obligation: a file that is already listed is not scanned again (termination on import cycles)"); }
+        unsafe { assert!(NREC == 1 && RECURSED[0] == 3, "obligation: a file that was already scanned as code is not scanned again (termination on import cycles)"); }
+    }
+    #[kani::proof] #[kani::unwind(6)]
+    fn h_str_then_code() {
+        // file 2 is first met through importstr (listed, not scanned) and then imported as code: its own imports are reachable, so it must be scanned now
+        let pre_listed: bool = kani::any();
+        unsafe { SCRIPT[0] = [("b", false, 2), ("b2", true, 2)]; NIMP[0] = 2; }
+        let mut deps = BTreeSet::new(); let mut scanned = BTreeSet::new();
+        if pre_listed { deps.insert(String(b'2')); }      // ... or it was listed by an earlier file through importstr
+        let r = collect_deps(&FileImportResolver, &SourcePath(0), &mut deps, &mut scanned);
+        assert!(r.is_ok() && deps.len() == 1 && deps.has(b'2'), "obligation: the target is listed once");
+        unsafe { assert!(NREC == 1 && RECURSED[0] == 2, "obligation: a file imported as code is scanned even if it was listed before through importstr / importbin (every statically reachable file is listed)"); }
+        kani::cover!(pre_listed); kani::cover!(!pre_listed);
     }
     #[kani::proof] #[kani::unwind(6)]
     fn h_errors() {
         let which: u8 = kani::any(); kani::assume(which < 3);
         unsafe { SCRIPT[0] = [("a", true, if which == 2 { 9 } else { 1 }), ("", false, 9)]; NIMP[0] = 1; if which == 0 { LOAD_FAILS = 0; } if which == 1 { PARSE_FAILS = 0; } }
-        let mut deps = BTreeSet::new();
-        let r = collect_deps(&FileImportResolver, &SourcePath(0), &mut deps);
+        let mut deps = BTreeSet::new(); let mut scanned = BTreeSet::new();
+        let r = collect_deps(&FileImportResolver, &SourcePath(0), &mut deps, &mut scanned);
         assert!(r.is_err(), "obligation: an unreadable file, a syntax error or an unresolvable import is reported, not skipped");
         unsafe { assert!(NREC == 0, "obligation: nothing is scanned after the failure"); }
         std::mem::forget(r);
